@@ -209,17 +209,26 @@ func tryCreateDateTimestamp(year, month, day int, precision TimestampPrecision) 
 
 func tryCreateTimestamp(ts []int, nsecs int, overflow bool, offset, sign int64, precision TimestampPrecision, fractionPrecision uint8) (Timestamp, error) {
 	date := time.Date(ts[0], time.Month(ts[1]), ts[2], ts[3], ts[4], ts[5], nsecs, time.UTC)
-	// time.Date converts 2000-01-32 input to 2000-02-01
-	if ts[0] != date.Year() || time.Month(ts[1]) != date.Month() || ts[2] != date.Day() {
+	// time.Date converts 2000-01-32 input to 2000-02-01 (and 00:60 to 01:00).
+	if ts[0] != date.Year() || time.Month(ts[1]) != date.Month() || ts[2] != date.Day() ||
+		ts[3] != date.Hour() || ts[4] != date.Minute() || ts[5] != date.Second() {
 		return Timestamp{}, fmt.Errorf("ion: invalid timestamp")
 	}
 
 	if precision <= TimestampPrecisionDay {
+		if ts[0] < 1 || ts[0] > 9999 {
+			return Timestamp{}, fmt.Errorf("ion: invalid timestamp")
+		}
 		return NewDateTimestamp(date, precision), nil
 	}
 
 	if overflow {
 		date = date.Add(time.Second)
+	}
+
+	// The fields are UTC; the year of the local time is what has to be within 0001-9999.
+	if local := date.Add(time.Duration(offset) * time.Minute).Year(); local < 1 || local > 9999 {
+		return Timestamp{}, fmt.Errorf("ion: invalid timestamp")
 	}
 
 	if offset == 0 {
